@@ -17,6 +17,7 @@ import (
 	"sync"
 	"syscall"
 	"time"
+	_ "time/tzdata"
 )
 
 type Check struct {
